@@ -536,6 +536,73 @@ func TestVerifC20(t *testing.T) {
 		c.Distinct(fmt.Sprintf("kw|%s|%d|%d", cfg.Cell(), seed, base))
 	})
 
+	// objects with the longest headers ("123456 54321 obj") behind a stream of
+	// every length modulo the scanner's buffer: the header falls at every offset
+	// relative to the buffer refills of the marker search
+	r.Phase("long-header-at-any-buffer-offset", 16*r.N(1, 12), func(c *kit.Case) {
+		// sixteen cases share one document and sweep 64 stream lengths each
+		group, part := c.Index/16, c.Index%16
+		grng := kit.NewRand(c.R.Seed, "c20-long-headers", fmt.Sprint(group))
+		cfg := gen.RandomConfig(grng, -1)
+		cfg.UserPW, cfg.OwnerPW = "", ""
+		cfg.NoObjStm = true
+		cfg.PlainBodies = true
+		cfg.NoFilters = true
+		cfg.Seekable = group%2 == 0
+		cfg.LongHeaders = true
+		cfg.MaxOps = 2 + grng.Intn(2)
+		// (a classic table, so that the objects end where the "xref" keyword begins)
+		cfg.Version = gen.Versions[group%5]
+		if cfg.Version < pdf.V1_1 {
+			cfg.ID = nil
+		}
+		seed := grng.Uint64()
+		for delta := 64 * part; delta < 64*(part+1); delta++ {
+			cfg.LongBodyLen = 1100 + delta
+			d, err := gen.BuildDoc(kit.NewRand(seed), cfg)
+			if err != nil {
+				c.Violationf("writer-refused-valid-call", "%v", err)
+				return
+			}
+			// the prefix of the file which holds all objects (the table for a hundred
+			// thousand numbers is cut off)
+			cut := bytes.LastIndex(d.Data, []byte("\nxref"))
+			if cut < 0 {
+				c.Violationf("harness/no-xref-keyword", "%s", cfg.String())
+				return
+			}
+			prefix := d.Data[:cut+1]
+			fi, err := pdf.SequentialScan(bytes.NewReader(prefix), int64(len(prefix)))
+			if err != nil {
+				c.Violationf("truncated/scan-fails", "%s\nprefix of %d bytes with all objects: %v", cfg.String(), len(prefix), err)
+				return
+			}
+			listed := map[pdf.Reference]*pdf.FileObject{}
+			for _, sec := range fi.Sections {
+				for _, o := range sec.Objects {
+					if !o.Broken {
+						listed[o.Reference] = o
+					}
+				}
+			}
+			for _, o := range d.Objs {
+				fo := listed[o.Ref]
+				if fo == nil {
+					c.Violationf("truncated/complete-object-not-listed", "%s\nops: %s\nobject %s (header of %d bytes) is complete in the %d byte prefix but not listed intact; stream length %d", cfg.String(), strings.Join(d.Ops, " "), o.Ref, len(fmt.Sprintf("%d %d obj", o.Ref.Number(), o.Ref.Generation())), len(prefix), cfg.LongBodyLen)
+					return
+				}
+				if !o.IsStream {
+					if val, err := fi.Read(fo); err != nil || !gen.Same(o.Value, val) {
+						c.Violationf("truncated/value", "%s\nobject %s read %s (%v), written %s", cfg.String(), o.Ref, kit.Trunc(gen.Canon(val), 200), err, kit.Trunc(gen.Canon(o.Value), 200))
+						return
+					}
+				}
+			}
+			c.R.Count("files_with_long_headers_scanned", 1)
+		}
+		c.Distinct(fmt.Sprintf("lh|%s|%d|%d", cfg.Cell(), seed, part))
+	})
+
 	// a Writer file with an incremental update appended (the same references
 	// defined again, and new ones), whose own cross-reference section is then cut
 	// off or overwritten: every definition is listed, and the recovered Reader
